@@ -107,7 +107,7 @@ type rcall struct {
 	kind string // wh201 wh404 w3 w0 rf5
 }
 
-var callKinds = []string{"wh201", "wh404", "w3", "w0", "rf5", "fl"}
+var callKinds = []string{"wh201", "wh404", "wh103", "w3", "w0", "rf5", "fl"}
 
 func proxyPart(r *seq.Run, tier string) {
 	L := 4
@@ -160,6 +160,10 @@ func proxyPart(r *seq.Run, tier string) {
 					if refStatus == 0 {
 						refStatus = 404
 					}
+				case "wh103": // an informational code is a WriteHeader like any other for the statement: the first one counts
+					if refStatus == 0 {
+						refStatus = 103
+					}
 				case "w3":
 					if refStatus == 0 {
 						refStatus = 200
@@ -192,6 +196,8 @@ func proxyPart(r *seq.Run, tier string) {
 						w.WriteHeader(201)
 					case "wh404":
 						w.WriteHeader(404)
+					case "wh103":
+						w.WriteHeader(103)
 					case "w3":
 						w.Write([]byte("abc"))
 					case "w0":
